@@ -1,1 +1,30 @@
-import RosedVerif.Model.Ops
+/-
+C03 — Layout depends on grapheme clusters only, not on their encoding.
+Naturality: every layer-B layout function commutes with ANY map on tokens that preserves
+whitespace-ness and the structural tokens (space, hyphen) — the map need not be injective.  Hence
+break positions, padding and line lengths are identical for texts that differ only in how their
+clusters are encoded.  The rune-level statement is tied by the relational run of ./check C03
+(the same operation on a text and on its cluster-for-cluster substitution, on the real code).
+-/
+import RosedVerif.Spec.Naturality
+namespace RosedVerif.Props
+open RosedVerif.Spec
+variable {α β : Type} {tk : Toks α} {tk' : Toks β} {g : α → β}
+
+theorem C03_wrap (h : TokMap tk tk' g) (w : Nat) (l : List α) :
+    wrapLines tk' w (l.map g) = (wrapLines tk w l).map (List.map g) := wrapLines_map h w l
+theorem C03_wrap_breaks (h : TokMap tk tk' g) (w : Nat) (l : List α) :
+    (wrapLines tk' w (l.map g)).map List.length = (wrapLines tk w l).map List.length :=
+  wrapLines_map_lengths h w l
+theorem C03_collapse (h : TokMap tk tk' g) (l : List α) : collapse tk' (l.map g) = (collapse tk l).map g :=
+  collapse_map h l
+theorem C03_alignLeft (h : TokMap tk tk' g) (w : Int) (l : List α) :
+    alignLeft tk' w (l.map g) = (alignLeft tk w l).map g := alignLeft_map h w l
+theorem C03_alignRight (h : TokMap tk tk' g) (w : Int) (l : List α) :
+    alignRight tk' w (l.map g) = (alignRight tk w l).map g := alignRight_map h w l
+theorem C03_alignCenter (h : TokMap tk tk' g) (w : Int) (l : List α) :
+    alignCenter tk' w (l.map g) = (alignCenter tk w l).map g := alignCenter_map h w l
+theorem C03_words (h : TokMap tk tk' g) (l : List α) : words tk' (l.map g) = (words tk l).map (List.map g) :=
+  words_map h l
+
+end RosedVerif.Props
